@@ -471,6 +471,58 @@ theorem Chain.filter_CI (rels : List StreamRel) (ch : Chain D E) (c e x : Bytes)
           rw [a2, h.relsEq herr] at this
           simpa [List.append_assoc] using this
 
+theorem Chain.feed_CI (rels : List StreamRel) : ∀ (xs : List Bytes) (ch : Chain D E) (c e : Bytes), CI tk rels ch c e →
+    CI tk rels (ch.feed tk ev codec xs).1 (c ++ xs.flatten) (e ++ (ch.feed tk ev codec xs).2.flatten)
+  | [], ch, c, e, h => by simpa [Chain.feed] using h
+  | x :: xs, ch, c, e, h => by
+    have h1 := Chain.filter_CI hl ev codec rels ch c e x h
+    have h2 := Chain.feed_CI rels xs _ _ _ h1
+    simp only [Chain.feed, List.flatten_cons]
+    simpa [List.append_assoc] using h2
+
+theorem Chain.end_comp (rels : List StreamRel) (ch : Chain D E) (c e : Bytes) (h : CI tk rels ch c e) :
+    Comp rels c (e ++ (ch.end tk ev codec).2) := by
+  unfold Chain.end
+  cases herr : ch.inError with
+  | true =>
+    have := h.inv
+    simp only [herr, if_true] at this ⊢
+    simpa using this []
+  | false =>
+    have hinv := h.inv
+    simp only [herr, Bool.false_eq_true, if_false] at hinv ⊢
+    cases hd : doEnd tk ev codec ch.items none with
+    | mk items' res =>
+      have := doEnd_comp hl ev codec ch.items items' none c e res h.plain (h.ok herr) hinv hd
+      rw [h.relsEq herr] at this
+      cases res with
+      | ok r => simpa using this
+      | error p => simpa using this
+
+/-- For every chunking, the concatenated output of the chain (outputs of the `filter` calls, then `end`) is related to
+the concatenated input by the composition of the stage relations. -/
+theorem Chain.run_comp (rels : List StreamRel) (ch : Chain D E) (h : CI tk rels ch [] []) (cs : List Bytes) :
+    Comp rels cs.flatten (ch.run tk ev codec cs) := by
+  have h1 := Chain.feed_CI hl ev codec rels cs ch [] [] h
+  have h2 := Chain.end_comp hl ev codec rels _ _ _ h1
+  simpa [Chain.run, Chain.runOuts] using h2
+
 end
+
+/-- a freshly built plain chain satisfies the invariant -/
+theorem CI_init (tk : Tokenize) (items : List (Stage D E)) (hp : AllPlain items) (hok : AllOK tk items)
+    (hone : htmlCount items ≤ 1) (hheld : ∀ st ∈ items, held st = []) :
+    CI tk (items.map stageRel) { items := items } [] [] := by
+  refine ⟨hp, fun _ => hok, hone, fun _ => rfl, ?_⟩
+  simp only [Bool.false_eq_true, if_false]
+  induction items with
+  | nil => rfl
+  | cons st rest ih =>
+    refine ⟨[], ?_, ih (fun s hs => hp s (by simp [hs])) (fun s hs => hok s (by simp [hs])) ?_ (fun s hs => hheld s (by simp [hs]))⟩
+    · rw [hheld st (by simp)]; exact (stageRel st).refl _
+    · have : htmlCount rest ≤ htmlCount (st :: rest) := by
+        simp only [htmlCount, List.filter]
+        cases isHtml st <;> simp
+      omega
 
 end Rio.Filter
